@@ -9,7 +9,7 @@ HARNESS = "rx"
 HARNESS_ARGS = ["c01"]
 ALLOWED_AXIOMS = []
 RUN_IMPORT = "Reactive.GraphRun"
-READY = False
+READY = True
 SHRINK_PREFIX = 1
 valid_case = X.valid_case
 describe = X.describe
@@ -44,7 +44,7 @@ TECHNIQUE = "Coq proof (global invariant preserved by every operation, induction
 
 
 def generate(rng, tier):
-    n1, n2 = (2000, 500) if tier == "quick" else (40000, 10000)
+    n1, n2 = (12000, 4000) if tier == "quick" else (120000, 40000)
     big = 12 if tier == "quick" else 30
     for i in range(n1):
         prog = X.gen_program(rng, rng.randint(3, big if rng.random() < 0.3 else 9), 0)
